@@ -328,7 +328,9 @@ class Layout:
     def term(self):
         t = self.pick([";", "\n", ";\n", "\n\n", " ;", " \n", "; // trailing comment\n", " /* c */ ;",
                        # a remark whose own end of line is what terminates the entry
-                       " // remark\n", "\t// remark; with } punctuation\n", " /* c */ // both\n"])
+                       " // remark\n", "\t// remark; with } punctuation\n", " /* c */ // both\n",
+                       # ... also when it starts right after the value, without any blank
+                       "// tight\n", "/* tight */;", "/**/\n"])
         self.feat.add("semicolon" if ";" in t else "newline_term")
         return t
 
